@@ -554,6 +554,16 @@ func (f *fctx) applyContract(callee *ssa.Function, con *Contract, args []Term, p
 		}
 		f.assume(Implies(preAll, wantBoolE(t)))
 	}
+	if root := f.rootFctx(); root.rootCon != nil {
+		for _, c := range root.rootCon.AssumeCall[callee.Name()] {
+			t, err := ToSMT(c.Expr, env)
+			if err != nil {
+				panic(specErr{fmt.Sprintf("%s:%d: %v", c.File, c.Line, err)})
+			}
+			f.assume(wantBoolE(t))
+			f.sc.Trusted["domain restriction (assumed, not proved): results of "+callee.Name()+" satisfy "+c.Text] = true
+		}
+	}
 	// a postcondition `len(rK) == <literal>` makes the result a sequence of statically known length
 	if len(con.Requires) == 0 || true {
 		for _, c := range con.Ensures {
